@@ -237,6 +237,8 @@ func c13Body(t *testing.T, s *sim.Scn, o *sim.Outcome) {
 	}
 	// observers: the public, concurrently callable getters of the manager are what RPC handlers, metrics and
 	// the node's own status reporting call from other goroutines in a deployment
+	var obsMu sync.Mutex
+	obsViolation := ""
 	observe := func(n *sim.Node) {
 		env(func() {
 			tk := time.NewTicker(53 * time.Millisecond)
@@ -247,7 +249,15 @@ func c13Body(t *testing.T, s *sim.Scn, o *sim.Outcome) {
 					return
 				case <-tk.C:
 					st := n.M.GetLastState()
-					_ = n.M.GetDAIncludedHeight()
+					// the execution layer is asked to finalize a height before that height is reported:
+					// whatever is reported now must already be in the finalize log
+					if d := n.M.GetDAIncludedHeight(); d > n.Exec.MaxFinalized() {
+						obsMu.Lock()
+						if obsViolation == "" {
+							obsViolation = fmt.Sprintf("%s reports DA-included height %d while the execution layer has only been asked to finalize up to %d", n.Cfg.Name, d, n.Exec.MaxFinalized())
+						}
+						obsMu.Unlock()
+					}
 					h, _ := n.M.GetStoreHeight(ctx)
 					if h > 0 {
 						_, _ = n.M.IsDAIncluded(ctx, h)
@@ -334,6 +344,10 @@ func c13Body(t *testing.T, s *sim.Scn, o *sim.Outcome) {
 		o.Fail("C13/worker-does-not-stop-promptly", "C13/worker-does-not-stop-promptly/"+worstName+"/"+phase, -1,
 			fmt.Sprintf("asked to stop at %v (genesis %v in the future, block time %v): %s returned %v of simulated time later %v", stopAt, future, bt, worstName, worst, slow),
 			"every activity returns promptly (within 1 s) when the node is asked to stop")
+		return
+	}
+	if obsViolation != "" {
+		o.Fail("C13/invariant-C07-violated", "C13/invariant-C07-violated/reported-before-finalized", -1, obsViolation, "finalize before report, on every interleaving")
 		return
 	}
 	// post-mortem invariants
